@@ -243,6 +243,7 @@ struct World {
     unsigned long long stateHash = 0;
     long rotations = 0, removals = 0, gzChecked = 0, gzSeen = 0;
     bool faultMode = false; // under crash/fault injection some oracles (C07, strict C05 equality) do not apply
+    bool afterCrash = false; // this process adopted a directory that a crashed process left behind (a partial .gz may sit next to its intact original)
 
     void violate(const std::string &key, const std::string &what) { viols.push_back({ key, what }); }
 
@@ -489,7 +490,13 @@ struct World {
                 violate("C08:invalid-gzip", r.identity + ".gz is not a valid gzip stream: " + why); continue;
             }
             else gzChecked++;
-            if (se.plain && se.gz && faultMode) { std::string z; if (gunzipStrict(se.gzBytes, z, why)) gzChecked++; }
+            if (se.plain && se.gz && faultMode) {
+                std::string z;
+                if (gunzipStrict(se.gzBytes, z, why)) gzChecked++;
+                // a call failed but the operation ran to its end: whatever .gz it leaves must be complete (an unusable .gz next to the original
+                // is never repaired and counts as a log file from then on)
+                else if (!afterCrash) violate("C08:invalid-gzip-left-behind", r.identity + ".gz was left behind next to the uncompressed file and is not a valid gzip stream: " + why);
+            }
             if (content != r.content) violate(se.plain ? "C05:rotated-changed" : "C08:content-mismatch", "content of rotated " + r.identity + (se.plain ? "" : ".gz (decompressed)") + " changed after rotation / differs from the rotated log");
         }
         // new rotated files, in (date, index) order
@@ -504,6 +511,7 @@ struct World {
             std::string content, why;
             if (cfg.N == 1) violate("C06:rotated-with-N1", "rotated file " + se->s.identity + " produced although the file-count limit is 1");
             if (se->plain && se->gz && !faultMode) violate("C05:duplicate-file", "both " + se->s.identity + " and its .gz exist");
+            if (se->plain && se->gz && faultMode && !afterCrash) { std::string z, w2; if (!gunzipStrict(se->gzBytes, z, w2)) violate("C08:invalid-gzip-left-behind", se->s.identity + ".gz was left behind next to the uncompressed file and is not a valid gzip stream: " + w2); }
             if (se->gz) gzSeen++;
             if (se->plain) content = se->plainBytes;
             else if (!gunzipStrict(se->gzBytes, content, why)) { violate("C08:invalid-gzip", se->s.identity + ".gz is not a valid gzip stream: " + why); content.clear(); }
@@ -913,6 +921,7 @@ void childRun(const Config &cfg, const std::vector<Op> &h, const Op &fin, const 
         World &w = *g_world;
         vdev::armed = false; vdev::preMutate = nullptr;
         w.opNo++;
+        w.afterCrash = true;     // the process dies in the middle of the operation: a partial .gz next to its intact original is what a crash looks like
         w.check(false);
         reachedOracle(w, (long)w.full.size());
         g_sh->mutCount = vdev::mutCount;
@@ -945,7 +954,7 @@ struct RestartInfo { long long nowMs; std::vector<std::pair<std::string, long lo
 void childRestart(const Config &cfg, const std::string &dir, const RestartInfo &ri, int laterDays)
 {
     static World w;
-    w.faultMode = true;
+    w.faultMode = true; w.afterCrash = true;
     w.cfg = cfg; w.dir = dir; w.path = dir + "/" + SHAPE_NAME[cfg.shape];
     vdev::root = dir; vdev::nowMs = ri.nowMs + 60000 + 86400000LL * laterDays; vdev::vmtime.clear(); vdev::fdPath.clear();
     for (auto &t : ri.times) { struct stat st; if (::stat((dir + "/" + t.first).c_str(), &st) == 0) vdev::vmtime[st.st_ino] = t.second; }
@@ -1002,6 +1011,7 @@ void childRestart(const Config &cfg, const std::string &dir, const RestartInfo &
 void modeCrash(const std::vector<Config> &cfgs, int depth, int shard, int nshards, vx::Summary &sum)
 {
     g_sh = (Shared *)mmap(nullptr, sizeof(Shared), PROT_READ | PROT_WRITE, MAP_SHARED | MAP_ANONYMOUS, -1, 0);
+    vdev::readOpenPoints = true;
     std::set<std::string> crashSigs;
     long long caseNo = 0;
     auto forkDo = [&](std::function<void()> body) {
@@ -1088,7 +1098,8 @@ void modeCrash(const std::vector<Config> &cfgs, int depth, int shard, int nshard
                 for (long k = 1; k <= M; k++) {
                     const std::string &cn = calls[k - 1];
                     bool isGzOpen = cn.compare(0, 4, "open") == 0 && cn.size() > 3 && cn.compare(cn.size() - 3, 3, ".gz") == 0;
-                    bool target = cn.compare(0, 6, "rename") == 0 || cn.compare(0, 4, "link") == 0 || cn.compare(0, 6, "unlink") == 0 || isGzOpen;
+                    bool isReadOpen = cn.compare(0, 6, "openrd") == 0;      // the compression step cannot read the rotated file back (descriptor limit, permissions)
+                    bool target = cn.compare(0, 6, "rename") == 0 || cn.compare(0, 4, "link") == 0 || cn.compare(0, 6, "unlink") == 0 || isGzOpen || isReadOpen;
                     if (!target) continue;
                     for (int en : { EACCES, ENOSPC }) {
                         if (en == ENOSPC && !isGzOpen && cn.compare(0, 6, "rename") != 0) continue;
@@ -1100,7 +1111,7 @@ void modeCrash(const std::vector<Config> &cfgs, int depth, int shard, int nshard
                         collect(cfg, hs + " : call " + std::to_string(k) + " (" + cn + ") fails with errno " + std::to_string(en) + ", then 3 more writes", "fault", ",\"fail_at\":" + std::to_string(k) + ",\"errno\":" + std::to_string(en));
                         crashSigs.insert("fail-" + cn.substr(0, cn.find(' ')) + "/" + std::to_string(g_sh->rotFiles));
                     }
-                    {   // the operation as a whole fails: from this call on the directory is read-only for the rest of the write (rename, link, unlink and file
+                    if (!isReadOpen) {   // the operation as a whole fails: from this call on the directory is read-only for the rest of the write (rename, link, unlink and file
                         // creation fail; data writes to existing files still work), then the condition clears and 3 more records are written
                         CrashPlan pl; pl.failFrom = k; pl.failErrno = EACCES;
                         wipe(g_dir);
